@@ -271,7 +271,8 @@ def main():
     alpha13 = [b"(", b")", b"*", b"\\", b"=", b":", b"~", b"<", b">", b"!", b"&", b"|", b" ", b"\x00", b"\n", b"0", b"a", b"\x7f", b"\x80", b"\xff"]
     vals = [b""] + alpha13 + [a + b for a in alpha13 for b in alpha13]
     if tier == "thorough":
-        vals += [a + b + c for a in alpha13[:12] for b in alpha13[:12] for c in alpha13[:12]]
+        vals += [a + b + c for a in alpha13 for b in alpha13 for c in alpha13]
+        vals += [a + b + c + d for a in alpha13[:8] for b in alpha13[:8] for c in alpha13[:8] for d in alpha13[:8]]
     chunks = [vals[i::32] for i in range(32)]
     for cnt, out in pool.map(_chunk_values, chunks):
         evals["C13"] += cnt
@@ -308,6 +309,12 @@ def main():
     for a in alpha15:
         for b in (alpha15 if L >= 4 else [""]):
             tasks.append((alpha15, a + b, L - 2))
+    if tier == "thorough":
+        # length 6 over the structural characters only (what the scanners branch on)
+        alpha6 = ["(", ")", "*", "\\", "=", ":", "~", "<", ">", "!", "&", "|", " ", "a"]
+        for a in alpha6:
+            for b in alpha6:
+                tasks.append((alpha6, a + b, 4))
     for cnt, out in pool.map(_chunk_strings, tasks, chunksize=8):
         evals["C15"] += cnt
         for o in out:
@@ -324,6 +331,13 @@ def main():
                     edits.add(s[:i] + c + s[i + 1:])
             if i < len(s):
                 edits.add(s[:i] + s[i + 1:])
+    if tier == "thorough":
+        # two edits: a second structural character inserted anywhere into every single edit of a tenth of the seeds
+        firsts = sorted(edits)[::10]
+        for s1 in firsts:
+            for i in range(0, len(s1) + 1):
+                for c in ("(", ")", "=", "\\", "*", ":"):
+                    edits.add(s1[:i] + c + s1[i:])
     edits = sorted(edits)
 
     def chunks_of(xs, k):
@@ -341,8 +355,8 @@ def main():
     total = sum(evals.values())
     out = {"evaluations": total, "distinct_nontrivial": total, "per_property": evals, "regex_exact": exact, "violations": list(known_seen.values()) + violations,
            "wall_s": round(time.time() - t0, 2),
-           "bound": f"C15: all strings of length <= {L} over a {len(alpha15)}-symbol class alphabet ({evals['C15']} incl. {len(edits)} single-character edits of grammar sentences); "
-                    f"C14: {len(sentences)} grammar sentences with their denoted trees; C13: 256-octet table (complete), {evals['C13']} leaf/tree round trips over values of length <= {3 if tier == 'thorough' else 2} "
+           "bound": f"C15: all strings of length <= {L} over a {len(alpha15)}-symbol class alphabet{' and of length 6 over the 14 structural characters' if tier == 'thorough' else ''} ({evals['C15']} incl. {len(edits)} single-{'and double-' if tier == 'thorough' else ''}character edits of grammar sentences); "
+                    f"C14: {len(sentences)} grammar sentences with their denoted trees; C13: 256-octet table (complete), {evals['C13']} leaf/tree round trips over values of length <= {'3 (all 20 octet classes) and 4 (8 classes)' if tier == 'thorough' else 2} "
                     "from a 20-octet structural alphabet; regex: automata difference over the full Unicode alphabet (exact)"}
     json.dump(out, sys.stdout, default=str)
 
